@@ -120,7 +120,8 @@ FUNCS = {
             when='not self._in_sess or (not flag(flags, 2) and '
                  '(self._rx_tmp is None or not eqv(self._rx_tmp.transfer_id, transfer_id)))',
             iff=True, attrs={'reason': '3'}, modifies=RX_GHOST,
-            ensures=[('peer_was_illegal', 'implies(old(self._in_sess), not ghost.peer_legal)', [])])},
+            ensures=[('peer_was_illegal', 'implies(old(self._in_sess), not ghost.peer_legal)', []),
+                     ('peer_legal_monotone', 'implies(not old(ghost.peer_legal), not ghost.peer_legal)', [])])},
         modifies=SEND_MODS + RXQ + ITEM + FILES + MCLOSE_MODS + RX_GHOST + ['ghost.signals', 'ghost.rx_live'],
         ensures=[
             ('ack_sent', 'ghost.trace == old(ghost.trace) + [last(ghost.trace)] and last(ghost.trace).kind == EV_ACK and '
@@ -144,6 +145,7 @@ FUNCS = {
             ('other_buffers_untouched', 'forall(f, "Ref[BytesIO]", implies(existed(f) and '
                                         'not eqv(old(self._rx_tmp.file), f), f.content == old(f.content) and '
                                         'f.pos == old(f.pos)))', ['C01']),
+            ('peer_legal_monotone', 'implies(not old(ghost.peer_legal), not ghost.peer_legal)', []),
             ('tx_side_untouched', 'self._tx_pend_start == old(self._tx_pend_start) and eqv(self._tx_tmp, old(self._tx_tmp)) '
                                   'and self._tx_map == old(self._tx_map) and self._tx_pend_ack == old(self._tx_pend_ack)',
              ['C17']),
